@@ -75,8 +75,9 @@ EXIT_VERIFY = "exit:Verify inputs unchanged#1"
 FIRST_POINT = "enter:Open input files#1"
 LAST_POINT = "after-verify-inputs#1"
 
-QUICK_POINTS = ["exit:Open input files#1", "after-load-inputs#1", "exit:Resolve symbols#1",
-                "exit:Layout#1", "exit:Write output file#1", ENTER_VERIFY, EXIT_VERIFY]
+# Quick tier: 5 instants, the most telling first (the order only matters when the wall cap hits).
+QUICK_POINTS = ["exit:Layout#1", ENTER_VERIFY, "after-load-inputs#1", "exit:Resolve symbols#1",
+                EXIT_VERIFY]
 FORK_POINTS = ["after-load-inputs#1", "exit:Layout#1", ENTER_VERIFY, EXIT_VERIFY]
 
 
